@@ -252,3 +252,75 @@ def c13(a):
     c.assumptions = TRUSTED + ["the harness's independent TZif / POSIX TZ readers", "zic"]
     return c.finish()
 
+
+
+@prop("C19")
+def c19(a):
+    from vlib import tlc_accept, tlc_simulate, WORK
+    c = Check("C19", a.tier, a.seed)
+    wd = workdir("C19")
+    binary = build_harness()
+    quick = a.tier == "quick"
+    # Engine C: all interleavings of the cache protocol in small scope + liveness
+    c.add_mc(tlc_mc("TzdbCache.tla", "MC_TzdbCache_quick.cfg" if quick else "MC_TzdbCache_thorough.cfg",
+                    os.path.join(wd, "mc"), timeout=3 * 3600))
+    c.add_mc(tlc_mc("TzdbCache.tla", "MC_TzdbCache_live.cfg", os.path.join(wd, "mc2")))
+    # Engine B: TLC-generated sequential histories replayed on the real database
+    hists = []
+    for cfgname, ttl in (("TzdbCacheSim.cfg", 2), ("TzdbCacheSim_ttl1.cfg", 1)):
+        items = tlc_simulate("TzdbCacheSim.tla", cfgname, os.path.join(wd, "sim"), num=500 if quick else 6000, depth=150,
+                             seed=a.seed + 1)
+        hp = os.path.join(wd, f"hist-ttl{ttl}.jsonl")
+        with open(hp, "w") as f:
+            for it in items:
+                f.write(it + "\n")
+        s = run_driver(binary, "c19replay", os.path.join(wd, f"replay{ttl}"), a.tier, a.seed,
+                       ["--histories", hp, "--ttl", str(ttl)])
+        c.add_summary(s)
+        for fpath in s["files"]:
+            for line in open(fpath):
+                e = json.loads(line)
+                if e["ok"]:
+                    c.traces += 1
+                else:
+                    full = json.loads(items[e["hid"]])
+                    c.violation("the real database diverges from the model on a TLC-generated history "
+                                "(returned version / path taken)", {"event": {"history": full, "ttl": ttl,
+                                                                              "mismatches": e["mismatches"]}})
+    # Engine A: concurrent executions validated against the model
+    s = run_driver(binary, "c19stress", os.path.join(wd, "stress"), a.tier, a.seed)
+    c.add_summary(s)
+    for fpath in s["files"]:
+        for line in open(fpath):
+            e = json.loads(line)
+            if e["panics"]:
+                c.violation("panic in a concurrent lookup/reset", {"event": e})
+            if e["cache_unsorted"]:
+                c.violation("the zone cache lost its sort order / has duplicates", {"event": e})
+            r = tlc_accept("Trace_Cache.tla", "Trace_Cache.cfg", e["trace"], os.path.join(wd, "acc"))
+            c.states += r["distinct"]
+            c.transitions += r["generated"]
+            if r["accepted"]:
+                c.traces += 1
+            else:
+                ev = None
+                if r["furthest"]:
+                    with open(e["trace"]) as tf:
+                        lines = tf.readlines()
+                    ev = {"rejected_at_line": r["furthest"], "event": json.loads(lines[r["furthest"] - 1]) if r["furthest"] <= len(lines) else None,
+                          "context": [json.loads(x) for x in lines[max(0, r["furthest"] - 12):r["furthest"]]]}
+                c.violation("a recorded concurrent execution is not a behaviour of TzdbCache.tla"
+                            + (f" (model invariant {r['inv_violated']} broken)" if r["inv_violated"] else ""),
+                            {"event": ev, "run": e["run"]})
+    c.rule = ("Engine C: TzdbCache.tla (one action per critical section of zoneinfo::Database::get/reset, environment "
+              "file replace/remove/add, clock ticks) model-checked exhaustively for 2 threads x 2 names (thorough: 3 threads) "
+              "against CacheCoherent, ReturnOk, FreshAfterExpiry, LockInv, and for progress under fairness. Engine B: TLC "
+              "-simulate generates sequential operation histories (get in any case spelling, reset, replace, remove, add, "
+              "tick past the ttl) which the harness replays on a real TimeZoneDatabase::from_dir over synthetic TZif files "
+              "whose offset encodes (name, version), comparing every returned version and the path taken (hook events). "
+              "Engine A: 4 threads + a writer thread run against one database; the hook events (sequence numbers taken "
+              "under jiff's locks) form a trace that must be a behaviour of the model (Trace_Cache.tla, file operations "
+              "taking effect anywhere between their markers). Non-trivial = histories with expiry / concurrent runs.")
+    c.assumptions = TRUSTED + ["hooks in /repo under cfg(jiff_verif): mock monotonic clock, ttl setter, critical-section events",
+                               "the harness's TZif writer for fixed-offset files"]
+    return c.finish()
